@@ -70,13 +70,15 @@ Fixpoint in_class (c : cfg) (t : uexpr) : bool :=
   | UCol _ | ULit _ | UPy _ => true
   | UBin o a b =>
       in_class c a && in_class c b &&
-      (if is_logic o then andor_ok a && andor_ok b else closed a && closed b)
+      (if is_logic o then andor_ok a && andor_ok b
+       else (bf_opwrap (c_fwd c o) || closed a) && (bf_opwrap (c_fwd c o) || closed b))
   | URBin o _ b => has_reflected o && in_class c b && (if is_logic o then andor_ok b else closed b)
-  | UNse a b => in_class c a && in_class c b && closed a && closed b
+  | UNse a b => in_class c a && in_class c b && (bf_opwrap (c_nse c) || closed a) && (bf_opwrap (c_nse c) || closed b)
   | UNeg a | UNot a => in_class c a
-  | UIsNull a | UIsNotNull a | UIsin a _ | ULike a _ | UILike a _ => in_class c a && closed a
-  | UBetween a lo hi => in_class c a && in_class c lo && in_class c hi && closed a && closed lo && closed hi
-                         && noalias lo && noalias hi
+  | UIsNull a | UIsNotNull a | UIsin a _ | ULike a _ | UILike a _ => in_class c a && (c_pred_opwrap c || closed a)
+  | UBetween a lo hi => in_class c a && in_class c lo && in_class c hi
+                         && (c_pred_opwrap c || closed a) && (c_pred_opwrap c || closed lo) && (c_pred_opwrap c || closed hi)
+                         && (c_between_unalias c || noalias lo) && (c_between_unalias c || noalias hi)
   | URlike a _ | UAlias a _ => in_class c a
   | UCast a ty => in_class c a && negb (same_cast ty a)
   | UStartsWith a b => in_class c a && in_class c b
@@ -157,9 +159,12 @@ Lemma operand_eq b : (match b with UPy v => pylit true v | _ => build c b end) =
 Proof. destruct b; try reflexivity. cbn [build]. apply pylit_true. Qed.
 
 (** ---- BUILD_SHAPE: stripped of its parentheses, the built tree is the intended tree ------------- *)
+Lemma strip_wrap w e : strip (wrap w e) = strip e.
+Proof. unfold wrap. destruct (w && is_open e); reflexivity. Qed.
+
 Lemma strip_mkbin bf x y : strip (mkbin bf x y) =
   if bf_self_left bf then SBin (bf_cls bf) (strip x) (strip y) else SBin (bf_cls bf) (strip y) (strip x).
-Proof. unfold mkbin. destruct (bf_paren bf), (bf_self_left bf); reflexivity. Qed.
+Proof. unfold mkbin. destruct (bf_paren bf), (bf_self_left bf); cbn [strip]; rewrite !strip_wrap; reflexivity. Qed.
 
 Lemma build_shape_mut :
   (forall t, in_class c t = true -> strip (build c t) = denote t) /\
@@ -180,12 +185,12 @@ Proof.
   - (* UNse *) rewrite N3, operand_eq, strip_mkbin, N1, N2. congruence.
   - (* UNeg *) rewrite Eneg. cbn [mkun uf_paren uf_not strip]. congruence.
   - (* UNot *) rewrite Enot. cbn [mkun uf_paren uf_not strip]. congruence.
-  - (* UIsNull *) cbn [strip]. congruence.
-  - (* UIsNotNull *) destruct (c_isnotnull_paren c); cbn [strip]; congruence.
-  - (* UIsin *) cbn [strip]. congruence.
-  - (* UBetween *) cbn [strip]. congruence.
-  - (* ULike *) rewrite EL. cbn [strip]. congruence.
-  - (* UILike *) rewrite EIL. cbn [strip]. congruence.
+  - (* UIsNull *) cbn [strip]. rewrite ?strip_wrap. congruence.
+  - (* UIsNotNull *) destruct (c_isnotnull_paren c); cbn [strip]; rewrite ?strip_wrap; congruence.
+  - (* UIsin *) cbn [strip]. rewrite ?strip_wrap. congruence.
+  - (* UBetween *) cbn [strip]. rewrite ?strip_wrap. congruence.
+  - (* ULike *) rewrite EL. cbn [strip]. rewrite ?strip_wrap. congruence.
+  - (* UILike *) rewrite EIL. cbn [strip]. rewrite ?strip_wrap. congruence.
   - (* URlike *) rewrite ER. cbn [strip]. congruence.
   - (* UStartsWith *) rewrite ES. cbn [strip]. congruence.
   - (* UEndsWith *) match goal with E : String.eqb _ _ = true |- _ => apply String.eqb_eq in E; rewrite E end.
